@@ -11,3 +11,6 @@ import RSVerif.Properties.C08
 #print axioms RS.supports_row_form
 #print axioms RS.index_safe_high
 #print axioms RS.index_safe_low
+#print axioms RS.source_supports_is_envelope
+#print axioms RS.source_validate
+#print axioms RS.source_work_counts
